@@ -414,6 +414,13 @@ Proof.
   rewrite Hx. rewrite (eread_spec c _ _ e Hwf Hg Hi He). apply past_meaning.
 Qed.
 
+(* with fixed_D15 and fixed_D34 on, every edge without delay has 0 steps: the sibling guard restricts nothing *)
+Lemma sibling_guard_trivial c : g_no_undelayed_sibling c = true.
+Proof.
+  unfold g_no_undelayed_sibling. apply forallb_forall. intros e _.
+  unfold is_delayed, rsteps. destruct (ed e); cbn; rewrite ?orb_true_r; reflexivity.
+Qed.
+
 (* ------------------------------------------------------------------------------------------------ *)
 (* 5. rounding *)
 Lemma round_half_even_int z : round_half_even (Q2Qc (inject_Z z)) = z.
